@@ -170,4 +170,67 @@ theorem reopen_deepStored (w : World) (E : List Eff) : WC.DeepStoredC w w.reopen
 theorem stor_congr_conts {w w' : World} (h : ∀ z, w'.cont? z = w.cont? z) (e : Elem) : w'.stor e = w.stor e :=
   Deep.stor_congr_conts h e
 
+/-! ### consequence: the log is a complete account of the deep content (`C10Persist.Complete`) -/
+
+/-- THE DEEP CONTENT of the slab stored under `id` AS THE CODEC SEES IT: the shallow slab together with
+    the storables of its local elements (inlined children embedded recursively) -/
+def deepC (w : World) (id : SlabID) : Option (WSlab × List Codec.Stor) :=
+  (w.slabAt id).map (fun s => (s, (C10Persist.slabElems s).map w.stor))
+
+/-- the shallow account and the deep account together: a complete account of the deep content -/
+theorem deepC_complete {w w' : World} {E : List Eff} (h : WEffectsComplete w w' E []) (hd : WC.DeepStoredC w w' E) :
+    C10Persist.Complete (deepC w) (deepC w') E := by
+  have hsome : ∀ (v : World) id, ((deepC v) id).isSome = (v.slabAt id).isSome := by
+    intro v id; unfold deepC; cases v.slabAt id <;> rfl
+  have hnone : ∀ (v : World) id, ((deepC v) id).isNone = (v.slabAt id).isNone := by
+    intro v id; unfold deepC; cases v.slabAt id <;> rfl
+  refine ⟨?_, ?_, ?_, ?_⟩
+  · intro id h1 h2
+    rw [hsome] at h1
+    by_cases he : w'.slabAt id = w.slabAt id
+    · obtain ⟨s, hs'⟩ := Option.isSome_iff_exists.1 h1
+      have hs : w.slabAt id = some s := by rw [← he]; exact hs'
+      refine hd id s hs' hs ?_
+      intro hsame
+      apply h2
+      unfold deepC
+      rw [hs', hs]
+      simp only [Option.map_some, Option.some.injEq, Prod.mk.injEq, true_and]
+      exact List.map_congr_left hsame
+    · exact h.changed_stored id h1 he
+  · intro id h1 h2
+    rw [hsome] at h1; rw [hnone] at h2
+    exact h.gone_removed id h1 h2
+  · intro id hl
+    rw [hsome]
+    rcases h.stored_in_heap id hl with h1 | h1
+    · exact h1
+    · cases h1
+  · intro id hl
+    rw [hnone]
+    exact h.removed_not_in_heap id hl
+
+/-- DEEP, UNCONDITIONAL IN THE CORE LEMMA: one operation (whose log satisfies the shallow and the deep
+    account — both are theorems for every operation of a history), then commit, then reopen: the new
+    storage holds, for every heap slab, the slab AND the storables of its local elements as of the
+    new world.  (`C10Persist.deep_op_persisted` with its hypothesis `DeepStored` discharged, for the
+    deep content in codec form.) -/
+theorem deepC_op_persisted {β : Type} (c : Codec (WSlab × List Codec.Stor) β) (hc : RoundTrip c)
+    (s : St (WSlab × List Codec.Stor) β) (w w' : World) (E : List Eff)
+    (hrep : C10Persist.Rep c s (deepC w)) (hI : Atree.Inv c s) (hcomp : WEffectsComplete w w' E [])
+    (hdeep : WC.DeepStoredC w w' E) (kind : CommitKind) (mo dlo : List SlabID) :
+    let s' := WE2E.applyEffs c s (deepC w') E
+    C10Persist.Rep c s' (deepC w') ∧ Atree.Inv c s' ∧
+    (NoEncodeFailure c s' →
+      (St.step c s' (.commit kind [] mo dlo)).2 = .unit ∧
+      let reopened := St.run c s' [.commit kind [] mo dlo, .recreate]
+      reopened.deltas = [] ∧ reopened.cache = [] ∧
+      ∀ id, id.isTemp = false → reopened.view c id = (deepC w') id) := by
+  intro s'
+  have hrep' : C10Persist.Rep c s' (deepC w') := C10Persist.rep_step c s _ _ _ hrep (deepC_complete hcomp hdeep)
+  have hI' : Atree.Inv c s' := C10Persist.applyEffs_keeps_inv c hc s _ _ hI
+  refine ⟨hrep', hI', fun henc => ?_⟩
+  obtain ⟨k1, k2⟩ := C10Persist.rep_commit_reopen c hc s' _ hrep' hI' henc kind mo dlo
+  exact ⟨k1, k2.1, k2.2.1, k2.2.2.2⟩
+
 end Atree.C10Deep
